@@ -109,6 +109,7 @@ def parseEv (toks : List String) : Option Ev :=
   | ["fail"] => some (.fail (.user 9))
   | ["cancelfut"] => some .cancelFut
   | ["complete", f, "ok", v] => do some (.complete (← f.toNat?) (.result (← v.toInt?)))
+  | ["complete", f, "killed"] => do some (.complete (← f.toNat?) (.exc .killedErr))
   | ["complete", f, "exc", n] => do some (.complete (← f.toNat?) (.exc (.user (← n.toNat?))))
   | _ => none
 
